@@ -51,7 +51,8 @@ from specs import sampler_spec as sp
 
 ID = 'C16'
 LEVEL = 'other'
-P_TARGETS = ['cgsmiles.graph_utils:merge_graphs', 'cgsmiles.cgsmiles_utils:find_complementary_bonding_descriptor', 'cgsmiles.cgsmiles_utils:find_open_bonds', 'cgsmiles.sample:MoleculeSampler.add_fragment']
+P_TARGETS = ['cgsmiles.graph_utils:merge_graphs', 'cgsmiles.cgsmiles_utils:find_complementary_bonding_descriptor', 'cgsmiles.cgsmiles_utils:find_open_bonds', 'cgsmiles.sample:MoleculeSampler.add_fragment',
+             'cgsmiles.sample:MoleculeSampler.__init__']
 BUDGET = {'quick': 30.0, 'thorough': 390.0}
 CHUNK = 100
 N_RANDOM = {'quick': 7000, 'thorough': 200000}
